@@ -92,6 +92,7 @@ func run(c *mon.Ctx) {
 		c.Note("field guard: %s", g)
 		c.Inconclusive("comparator-blind-field")
 	}
+	customisedNeighbours(c)
 	if c.Replay != "" {
 		var d detail
 		if err := c.ReplayDetail(&d); err != nil {
@@ -114,6 +115,7 @@ func run(c *mon.Ctx) {
 	st := cases.ForEach(plan, func(cs gen.Case, id string) { both(c, cs, id) })
 	c.Set("shapes_enumerated", st.Shapes)
 	c.Set("random_cases", st.Random)
+	customisedNeighbours(c)
 	headerTable(c)
 	corners(c)
 }
